@@ -45,7 +45,9 @@ def run(tier, seed):
             Ls = loop_limits if thorough else [loop_limits[k % len(loop_limits)]]
             k += 1
             for L in Ls:
-                big = "Infinity" if form not in ("for_of_array", "for_in") else str(L * 20 + 200)
+                # far over the limit but finite: an engine that fails to stop the loop completes it and is caught by the
+                # completion check instead of running into the watchdog (a watchdog hit is inconclusive)
+                big = str(L * 20 + 200)
                 # indirect eval / Function() only see globals: `run` must be a global there
                 entry = "call" if (k + L) % 4 == 0 and route not in ("indirect_eval", "function_ctor") else "eval"
                 swallow = (k % 5 == 0)
@@ -57,11 +59,11 @@ def run(tier, seed):
     for form in forms:
         for route in G.JOB_ROUTES:
             L = rng.choice(loop_limits)
-            cases.append((mk(G.loop_program(form, route, "Infinity" if form not in ("for_of_array", "for_in") else str(L * 20 + 200), job=True), {"loop": L}),
+            cases.append((mk(G.loop_program(form, route, str(L * 20 + 200), job=True), {"loop": L}),
                           {"kind": "over", "limit": "loop", "L": L, "what": "%s/job:%s" % (form, route), "step": "jobs"}))
     for form in G.SUSPENDING_LOOPS:
         for L in ([10, 100] if not thorough else [1, 3, 10, 100, 1000]):
-            cases.append((mk(G.suspending_program(form, "Infinity"), {"loop": L}),
+            cases.append((mk(G.suspending_program(form, L * 20 + 200), {"loop": L}),
                           {"kind": "over", "limit": "loop", "L": L, "what": "suspending:%s" % form, "step": "jobs", "forbid": ["LOOP-DONE", "THEN", "REJECTED"]}))
             if L >= 10:
                 cases.append((mk(G.suspending_program(form, max(0, L // 3 - 1)), {"loop": L}),
